@@ -3,6 +3,7 @@ From BBF Require Import Base.Prelude Base.Names Base.Bits Spec.Sem
      Model.Expr Model.Table Model.LibBdd Model.Bdd
      Proofs.ExprProofs Proofs.TableProofs Proofs.QuantProofs Proofs.NfProofs Proofs.DdProofs Proofs.BddProofs Proofs.BddOps
      Proofs.ConvProofs Proofs.RenderProofs Proofs.EnumProofs.
+From BBF Require Import Model.Lexer Model.Parser Model.Display Model.Render Model.Csv Model.Prog Proofs.ProgProofs Proofs.ConvChain Proofs.OpsObjects.
 Theorem C03_expr_and : forall v a b, sem v (e_and a b) = sem v a && sem v b.
 Proof. exact sem_e_and. Qed.
 Print Assumptions C03_expr_and.
@@ -60,3 +61,25 @@ Example C03_example :
   let b := tabulate [[98%N]] (fun rho => evaluate (Not (Lit [98%N])) rho) in
   wf_table a /\ wf_table b /\ t_and a b = {| t_inputs := [[97%N]; [98%N]]; t_outputs := [false; false; true; false] |}.
 Proof. repeat split; repeat constructor. Qed.
+
+(* ---- objects of any representation, as the case language runs the operations ---- *)
+
+Theorem C03_objects : forall op x y z, owf x -> owf y -> exec_op2 op x y = Ok z ->
+  owf z /\ obj_kind z = obj_kind x /\
+  (forall v, osem z v = bool_op op (osem x v) (osem y v)) /\
+  match z with
+  | OE e => incl (literals e) (set_union (decl x) (decl y))
+  | _ => decl z = set_union (decl x) (decl y)
+  end.
+Proof. exact obj_op2_spec. Qed.
+Print Assumptions C03_objects.
+
+Theorem C03_objects_total : forall op x y, owf x -> owf y -> obj_kind x = obj_kind y -> exists z, exec_op2 op x y = Ok z.
+Proof. exact obj_op2_total. Qed.
+Print Assumptions C03_objects_total.
+
+Theorem C03_objects_not : forall x, owf x ->
+  exists z, exec_op1 ONot x = Ok z /\ owf z /\ obj_kind z = obj_kind x /\ (forall v, osem z v = negb (osem x v)) /\
+            match z with OE e => incl (literals e) (decl x) | _ => decl z = decl x end.
+Proof. exact obj_not_spec. Qed.
+Print Assumptions C03_objects_not.
